@@ -117,7 +117,7 @@ PROPS = {
         "level": "exploration",
         "quick": cfg(16, 30),
         "thorough": cfg(16, 400),
-        "rule": "(a) byte strings of 0-600 bytes split into 1-8 volumes incl. empty first/middle/last volumes; 10-500 operations read(n) (n = 0, 1, small, > total) and seek(Start|Current|End) with targets in [0,len] incl. exactly at and around volume boundaries, compared step by step with std::io::Cursor over the concatenation (bytes, positions; a 0-byte read while the model has bytes left is a violation) and drained at the end; (b) every 40th case: zip archives written by a raw zip writer (stored entries; names: nested dirs, unicode, blanks/brackets, duplicates, empty members, directories, '../x', 'a/../../x', absolute incl. the absolute path of a pre-existing file, members larger than the 64 KiB copy buffer) extracted with extract_to_dir over a chain of random volumes and (every 80th case) with extract_archives from single or multi-volume files on disk with a pattern from a catalogue of (glob, Rust predicate) pairs; sandbox listing before/after. Non-trivial = chain history with >=1 read cut at a volume boundary and >=1 seek, archive checked without finding; distinct = (volumes, empties, size, crossings, empty first/last) resp. archive cases.",
+        "rule": "(a) byte strings of 0-600 bytes split into 1-8 volumes incl. empty first/middle/last volumes; 10-500 operations read(n) (n = 0, 1, small, > total) and seek(Start|Current|End) with targets in [0,len] incl. exactly at and around volume boundaries, compared step by step with std::io::Cursor over the concatenation (bytes, positions; a 0-byte read while the model has bytes left is a violation) and drained at the end; (b) every 40th case: zip archives written by a raw zip writer (stored entries; names: nested dirs, unicode, blanks/brackets, duplicates, empty members, directories, '../x', 'a/../../x', absolute incl. the absolute path of a pre-existing file, aliases such as 'dot.dlt' + './dot.dlt' or 'a/b.dlt' + 'a/./b.dlt' that resolve to one file, members larger than the 64 KiB copy buffer; in 1/3 of the filtered extractions some requested members are already present in the target directory as an earlier extraction left them) extracted with extract_to_dir over a chain of random volumes and (every 80th case) with extract_archives from single or multi-volume files on disk with a pattern from a catalogue of (glob, Rust predicate) pairs; sandbox listing before/after. Non-trivial = chain history with >=1 read cut at a volume boundary and >=1 seek, archive checked without finding; distinct = (volumes, empties, size, crossings, empty first/last) resp. archive cases.",
         "floors": {"quick": {"evaluations": 500000, "distinct_nontrivial": 5000, "archives": 8000, "archives_with_hostile_names": 4000, "volume_boundary_crossings": 500000, "empty_volumes_used": 200000, "multi_volume_archives_on_disk": 800, "members_extracted_and_compared": 8000}, "thorough": {"evaluations": 10000000, "distinct_nontrivial": 10000}},
         "assumptions": ["only the default feature set (zip) is built; libarchive formats (7z, bz2) are outside the built configuration", "seek targets beyond the end or before 0 are excluded (std leaves the former implementation-defined and the chain clamps by design)", "duplicate member names accept either member's content"],
     },
